@@ -391,8 +391,11 @@ func (x *Exec) cutLoop(s *State, ord int, label string, spec *LoopSpec, pos toke
 		}
 	}
 	// 2. havoc
+	frameNames := x.loopFrameNames(ws, s)
+	x.loopFrameOblige(s, frameNames, ord, "entry", x.pos(pos))
 	h := s.clone()
 	x.havocVars(h, ws)
+	x.loopFrameAssume(h, frameNames)
 	if spec != nil {
 		for _, inv := range spec.Invariants {
 			t := x.evalClause(h, inv)
@@ -443,6 +446,7 @@ func (x *Exec) cutLoop(s *State, ord int, label string, spec *LoopSpec, pos toke
 					continue
 				}
 			}
+			x.loopFrameOblige(e, frameNames, ord, "preserved", x.pos(pos))
 			if spec != nil {
 				for _, inv := range spec.Invariants {
 					x.goalMode = true
@@ -491,6 +495,10 @@ func (x *Exec) execRange(s *State, n *ast.RangeStmt) *State {
 	// hidden index
 	idxObj := types.NewVar(n.Pos(), nil, fmt.Sprintf("$range%d", ord), types.Typ[types.Int])
 	s.env[idxObj] = IntLit(0)
+	if f.rangeIdx == nil {
+		f.rangeIdx = map[int]types.Object{}
+	}
+	f.rangeIdx[ord] = idxObj
 	var keyObj, valObj types.Object
 	if id, ok := n.Key.(*ast.Ident); ok && id.Name != "_" {
 		keyObj = x.objOf(id)
@@ -602,8 +610,11 @@ func (x *Exec) rangeLoop(s *State, n *ast.RangeStmt, ord int, label string, spec
 			x.obligeNamed(s, fmt.Sprintf("%s/loop%d.inv#%d.entry", top, ord, inv.Ord), "invariant", g, x.pos(n.Pos()), inv.Text)
 		}
 	}
+	frameNames := x.loopFrameNames(ws, s)
+	x.loopFrameOblige(s, frameNames, ord, "entry", x.pos(n.Pos()))
 	h := s.clone()
 	x.havocVars(h, ws)
+	x.loopFrameAssume(h, frameNames)
 	i := h.env[idxObj]
 	h.assume(And(Cmp("<=", IntLit(0), i), Cmp("<=", i, length)))
 	bindKey(h)
@@ -634,6 +645,7 @@ func (x *Exec) rangeLoop(s *State, n *ast.RangeStmt, ord int, label string, spec
 		}
 		e.env[idxObj] = Arith("+", i, IntLit(1))
 		bindKey(e)
+		x.loopFrameOblige(e, frameNames, ord, "preserved", x.pos(n.Pos()))
 		if spec != nil {
 			for _, inv := range spec.Invariants {
 				x.goalMode = true
